@@ -2,7 +2,8 @@
 """Regenerates MANIFEST.json from props.json (claimed checks) and properties.jsonl."""
 import json, os
 root = os.path.dirname(os.path.abspath(__file__))
-props = json.load(open(os.path.join(root, "props.json")))
+import glob
+props = {os.path.basename(p)[:-5]: json.load(open(p)) for p in glob.glob(os.path.join(root, "props", "C*.json"))}
 ids = [json.loads(l)["id"] for l in open(os.path.join(root, "properties.jsonl")) if l.strip()]
 checks, na = [], []
 for pid in ids:
